@@ -322,6 +322,9 @@ def validate_traces(module: str, cfg: str | Path, traces: list, work: Path, *, n
         sd = Path(os.environ["VERIF_SAVE_TRACES"])
         sd.mkdir(parents=True, exist_ok=True)
         (sd / f"{module}.json").write_text(json.dumps(_no_null(traces[:400])))
+        for k_, v_ in (env or {}).items():          # side files the trace spec reads (deviation lists, keyword lists)
+            if v_ and os.path.isfile(str(v_)):
+                (sd / f"{module}.{k_}.json").write_text(Path(v_).read_text())
     e = {"TRACE_FILE": str(tf)}
     if env:
         e.update(env)
